@@ -26,7 +26,7 @@ class Query:
 
     def __init__(self, name, harness, units=(), defs=None, unwind=13, unwindset=None, stubs=("mem",),
                  timeout=300, mem_gb=12, checks="mem", ndebug=True, kf=(), expect_fail=(), note="",
-                 object_bits=12, extra=(), native_units=None, weight=1, replace_calls=None, unwind_fn=None):
+                 object_bits=12, extra=(), native_units=None, weight=1, replace_calls=None, unwind_fn=None, empty_ok=False):
         self.name = name
         self.harness = harness                    # path relative to /verif/harness
         self.units = list(units)                  # file names under /repo/src
@@ -45,6 +45,7 @@ class Query:
         self.extra = list(extra)
         self.native_units = native_units
         self.weight = weight
+        self.empty_ok = empty_ok                  # the class this query assumes may be empty (then that emptiness is the verdict)
         self.unwind_fn = dict(unwind_fn or {})    # {function name or prefix*: bound} resolved to loop ids via --show-loops
         self._resolved = False
         # optional modular verification: {callee: contract_fn}; the sources are compiled with goto-cc, calls to callee are
@@ -166,6 +167,19 @@ def static_objects(units, defs=()):
                 const = "#constant" in t.get("namedSub", {}) or pt.startswith("const ")
                 objs.append((name, bool(const), loc, pt))
     return objs, None
+
+
+def external_calls(units):
+    """names of functions called from the compiled library units that have no body there (libc / environment),
+    taken from the goto program (cbmc --show-goto-functions): regenerated from source on every run."""
+    cmd = ["cbmc", "-I", SRC, "-D__BEGIN_DECLS=", "-D__END_DECLS=", "-D" + GUARD, "-DNDEBUG"] + [os.path.join(SRC, u) for u in units] + \
+          ["--function", "varintTaggedLen", "--show-goto-functions"]
+    rc, out, err, _, to = run_proc(cmd, 300, 8)
+    defined = set(re.findall(r"^([A-Za-z_][A-Za-z0-9_]*) /\* ", out, re.M))
+    called = set(re.findall(r"CALL (?:[^\n]*? := )?([A-Za-z_][A-Za-z0-9_]*)\(", out))
+    if not defined:
+        return None, "no goto functions listed"
+    return sorted(c for c in called if c not in defined and not c.startswith("__CPROVER")), None
 
 
 def _limit(mem_gb):
@@ -421,6 +435,8 @@ def write_replay(q, inputs, prop, path_base):
 
 def replay_file(path):
     meta = json.load(open(path))
+    if meta.get("kind") == "audit":
+        return {"audit": ("audit", "static audit finding (re-run `vcheck run <ID> --only %s`): %s" % (meta.get("query"), json.dumps(meta.get("failed"))[:1500]))}
     q = Query(meta["query"], meta["harness"], units=meta["units"], defs=meta["defs"], ndebug=meta.get("ndebug", True),
               native_units=meta.get("native_units"))
     tmp = tempfile.mkdtemp(prefix="vp-replay-")
@@ -451,6 +467,14 @@ def run_query(q, replay_dir, prop_id):
         except Exception as e:
             r["why"] = "exception %r" % e
         r["wall_s"] = round(time.time() - t0, 2)
+        if r.get("verdict") == "violated":
+            # an audit has no input to replay: the replay file names the offending objects; `vcheck run <ID> --only <query>` re-derives it
+            os.makedirs(replay_dir, exist_ok=True)
+            path = os.path.join(replay_dir, re.sub(r"[^A-Za-z0-9_.-]", "_", "%s-%s" % (prop_id, q.name)) + ".json")
+            with open(path, "w") as f:
+                json.dump({"query": q.name, "kind": "audit", "failed": r.get("failed", []), "note": r.get("note", "")}, f, indent=1)
+            for rep in r.get("replays", []):
+                rep["replay"] = path
         return r
     t0 = time.time()
     r = {"name": q.name, "harness": q.harness, "defs": q.defs, "units": q.units, "verdict": None,
@@ -512,13 +536,22 @@ def _run_query(q, replay_dir, prop_id, r, gbdir):
         r["why"] = "%d properties UNKNOWN without a deciding failure%s" % (len(unknown), " (after advisory: %s)" % r["advisories"][0]["desc"][:80] if r.get("advisories") else "")
         return r
     if not fails:
-        if not r["reach"]:
+        if not r["reach"] and getattr(q, "empty_ok", False):
+            r["verdict"] = "held"; r["empty_class"] = True
+            r["why"] = "class proven empty: no input within the bounds satisfies the class assumption"
+        elif not r["reach"]:
             r["verdict"] = "vacuous"; r["why"] = "reachability witness not violated (assumptions unsatisfiable?)"
         else:
             r["verdict"] = "held"
         return r
     # order: unwinding failures make everything else meaningless
     unw = [p for p in fails if p["class"] == "unwind"]
+    # a counterexample to another property is a real execution prefix even when some loop bound is too small
+    # (BMC counterexamples are sound); only "nothing but unwinding assertions failed" is inconclusive
+    if unw and any(p["class"] in ("assert", "libassert", "mem") for p in fails):
+        r["unwind_also_failed"] = [p["id"] for p in unw][:4]
+        fails = [p for p in fails if p["class"] != "unwind"]
+        unw = []
     if unw:
         r["verdict"] = "inconclusive"
         r["why"] = "unwinding assertion failed: %s (bound too small for this tree)" % ", ".join(p["id"] for p in unw[:4])
